@@ -388,11 +388,18 @@ func buildOverlay(pcs []*PkgContracts) (map[string][]byte, error) {
 			if len(f) == 2 {
 				name = f[0]
 			}
-			if strings.Contains(specText, name+".") {
+			if strings.Contains(specText, name+".") || name == pc.SharedBytes {
 				fmt.Fprintf(&sb, "import %s\n", im)
 			}
 		}
-		sb.WriteString(preludeSrc)
+		if pc.SharedBytes != "" {
+			// byte sequences of this package's contracts are the same Go type as those of the named package,
+			// so spec functions over them can be shared across the two packages
+			sb.WriteString(strings.Replace(preludeSrc, "type verifBytes struct{ verifBytesID int }", "type verifBytes = "+pc.SharedBytes+".VerifBytes", 1))
+		} else {
+			sb.WriteString(preludeSrc)
+		}
+		sb.WriteString("\ntype VerifBytes = verifBytes\n")
 		sb.WriteString(atomicPrelude(pc))
 		for _, s := range pc.Specs {
 			sb.WriteString("\n" + s + "\n")
